@@ -3,7 +3,7 @@
 # prints one line per change: "<id> caught|MISSED|does-not-apply".  Nothing else may run meanwhile.
 cd /verif
 ids="$@"
-[ -z "$ids" ] && ids=$(ls seeded)
+[ -z "$ids" ] && ids=$(ls -d seeded/*/ | xargs -n1 basename)
 for id in $ids; do
   p=${id%%-*}
   out=$(tools/try_mutant.sh /verif/seeded/$id/patch.diff $p 2>&1)
